@@ -116,8 +116,8 @@ func (in *c07WiredInst) Ops() []explore.Op {
 			if in.allowedBy(mask) > pn && !in.wcfg.dishonest {
 				continue
 			}
-			for ae := 0; ae <= 1; ae++ {
-				ops = append(ops, explore.Op{N: "recv", A: c07App, B: pn, C: ae, D: c07PeerAckBase + mask})
+			for _, ae := range []bool{false, true} {
+				ops = append(ops, explore.Op{N: "recv", A: c07App, B: pn, C: c07Flags(ae, protocol.ECNNon), D: c07PeerAckBase + mask})
 			}
 		}
 	}
